@@ -71,6 +71,19 @@ CHECKS["C13"] = dict(
          "report.cross_weight (root cause in PyUCIS, outside /repo). Trusted: Coq kernel, harness, CPython.",
     technique="Coq proof over hand-written model of the save visitor + differential correspondence (memory vs report/text/XML) in Coq",
     ref="DESIGN.md §3 C13")
+CHECKS["C18"] = dict(
+    text="The accessor methods (type_base.set_val/get_val/val/__getitem__/__setitem__, list_t.append/__setitem__/__getitem__/"
+         "iteration, FieldScalarModel.set_val/post_randomize) are TRANSLATED from /repo's source to Gallina on every run by a "
+         "fail-closed Python-ast translator; the theorems (closed under the global context) are re-checked by coqc against the "
+         "regenerated definitions: assignment reduces modulo 2^w and re-reads as two's complement, every read path returns the "
+         "same in-type value, solver read-back is in type, part-select reads return the selected bits, part-select writes change "
+         "only the selected bits and stay in type; enum fields (hand-written model) round-trip declared enumerators. The "
+         "translated functions and the specification are also compared with real objects over exhaustively enumerated small widths.",
+    note="Trusted: Coq kernel, the translator (harness/translate_access.py; Python's int operators rendered as Z.land/lor/lnot/"
+         "shiftl/shiftr; procedural scalar branches specialised), harness, CPython. Enum part: hand-written model tied by the "
+         "differential run.",
+    technique="translator (Python ast -> Gallina) + Coq proofs re-checked against the regenerated model + exhaustive differential run",
+    ref="DESIGN.md §3 C18")
 NOT_YET = {}
 
 def main():
